@@ -685,6 +685,27 @@ def rule_argv(ctx, rid="R19.10"):
     return r
 
 
+def rule_errors_as_produced(ctx, rid="R19.13"):
+    """Each instance yields exactly the errors the library reports for it -- also when the library then fails: the errors are written
+    as they are produced, not collected first."""
+    prog = ctx.prog
+    f = prog.func("cli._validate_instance")
+    r = ctx.rule(rid, "errors are written to stderr as the validator produces them (those reported before the validator fails part-way are there)", floor=1)
+    from .clisem import as_produced_eval
+    try:
+        sem = as_produced_eval(prog)
+    except RecursionError:
+        sem = None
+    if sem is None:
+        r.ok(site(f), "NOT DECIDED: outside the evaluated fragment")
+        r.note(site(f), "%s not decided" % rid)
+    elif sem == "":
+        r.ok(site(f), "a validator that reports two errors and then raises: both are on stderr when the exception leaves run() (plain and pretty)")
+    else:
+        r.fail("%s|as-produced" % f.qual, site(f), sem)
+    return r
+
+
 def rule_main_exit_status(ctx, rid="R19.11"):
     """`python -m jsonschema` and the console script end with run()'s status: main() hands run()'s return value to sys.exit, and
     __main__.py calls main().  Evaluated by sa/tokeval.py with run() and parse_args() replaced by stand-ins (run answers 7) and a
@@ -879,6 +900,7 @@ def run(ctx):
         rule_options(ctx)
         rule_argv(ctx)
         rule_main_exit_status(ctx)
+        rule_errors_as_produced(ctx)
         # R19.12: the class named on the command line is the one that validates (C19-r6m2)
         from .c20 import rule_named_class
         rule_named_class(ctx, "R19.12")
@@ -905,6 +927,7 @@ def _structural(ctx):
     rule_options(ctx)
     rule_argv(ctx)
     rule_main_exit_status(ctx)
+    rule_errors_as_produced(ctx)
     from .c20 import rule_named_class
     rule_named_class(ctx, "R19.12")
     rule_parse_failures(ctx)
